@@ -117,6 +117,8 @@ func VerifC12() {
 	}
 	// a snapshot of another database is never even listed (prefix), but keep it in the bucket
 	b.names = append(b.names, "db2__a__20230101-000000-000000000__GX.pb.gz")
+	// ... and so are those of a database whose name extends ours ("db_archive"), old and superseded
+	b.names = append(b.names, "db_archive__a__19990101-000000-000000000__GX.pb.gz", "db_archive__a__19990102-000000-000000000__GX.pb.gz")
 
 	committed := map[string]int64{}
 	failListRun := zz.Choice("faillist", 3) - 1 // -1: never
